@@ -247,6 +247,35 @@ func runSelfTest(verif string) int {
 	if f := need("passViaBoolHelperBad"); f != nil {
 		expect("X-FN must-pass through a boolean helper: the claimed path without release is found", escapesWithout(f.Blocks[0], isRel) != nil, true)
 	}
+	// --- flag variables: a boolean phi of constants decides a later branch ---
+	guardCase("flagGuard", false)
+	guardCase("flagGuardBad", true)
+	// --- flattening of immediately invoked literals (inlined view) ---
+	{
+		src := []byte("package q\n\nfunc g() (int, error) { return 1, nil }\n\nfunc f(c bool) (int, error) {\n\tx, err := func() (int, error) {\n\t\tif c {\n\t\t\treturn 0, nil\n\t\t}\n\t\treturn g()\n\t}()\n\tif func() bool { return x > 0 }() {\n\t\treturn x, err\n\t}\n\treturn 0, err\n}\n")
+		ov := map[string][]byte{"/selftest/q.go": src}
+		err := flattenIIFEs("/selftest", ov)
+		out := string(ov["/selftest/q.go"])
+		fs := token.NewFileSet()
+		pf, perr := parser.ParseFile(fs, "q.go", out, 0)
+		okTypes := false
+		if perr == nil {
+			_, terr := (&types.Config{Importer: importer.ForCompiler(fs, "source", nil)}).Check("q", fs, []*ast.File{pf}, nil)
+			okTypes = terr == nil
+		}
+		nLit := 0
+		if pf != nil {
+			ast.Inspect(pf, func(nd ast.Node) bool {
+				if c, ok := nd.(*ast.CallExpr); ok {
+					if _, isLit := c.Fun.(*ast.FuncLit); isLit {
+						nLit++
+					}
+				}
+				return true
+			})
+		}
+		expect("INLINE-VIEW literals in assignment and if-condition are flattened into type-correct statements", err == nil && okTypes && nLit == 0, true)
+	}
 	theProg = theProgSaved
 	resetInterpMemo()
 	fmt.Printf("== selftest: %d cases, %d failed\n", n, fails)
